@@ -177,6 +177,8 @@ def run(plan):
         for m in lp.spec["modules"]:
             modname = lp.spec["pkg"] + "." + m
             pre, tail = E.stub_argv(plan["flag"], modname)
+            # --limit is exactly the number of distinct rows: duplicates (hot calls) must not displace rare traces
+            pre = tuple(pre) + ("--limit", str(max(1, len({tuple(x[1:]) for x in r.rows}))))
             r.stubs[m] = E.run_cli(tail, r.path, plan["k_stub"], plan["rewriter"], pre)
     finally:
         shutil.rmtree(workdir, ignore_errors=True)
